@@ -158,7 +158,7 @@ Lemma obj_entries_keys k n j : kind_wf k -> okn k n -> consistent k j ->
   map fst (obj_entries n (objective_of j)) = objcols_of k.
 Proof.
   unfold consistent, okn, kind_wf. intros Hwf Hn Hc.
-  destruct (objective_of j) as [[z| | |]|s|l], k as [|m]; try contradiction; cbn [obj_entries objcols_of].
+  destruct (objective_of j) as [[z| | |]|s|l|], k as [|m]; try contradiction; cbn [obj_entries objcols_of].
   - destruct Hn as [->| ->]; reflexivity.
   - destruct Hn as [->| ->]; reflexivity.
   - subst n. cbn [scalar_entries]. destruct (1 <? m)%nat eqn:E; [apply rep_keys|]. apply Nat.ltb_ge in E. lia.
@@ -169,7 +169,7 @@ Lemma obj_entries_only_obj n o c : is_objcol c = false -> alookup col_eqb c (obj
 Proof.
   intros H. apply alookup_none_notin. intros Hin.
   assert (Hall : forall x, In x (map fst (obj_entries n o)) -> is_objcol x = true).
-  { intros x Hx. destruct o as [[z| | |]|s|l]; cbn [obj_entries] in Hx;
+  { intros x Hx. destruct o as [[z| | |]|s|l|]; cbn [obj_entries] in Hx;
       try (rewrite tuple_entries_keys in Hx; apply in_map_iff in Hx as [i [<- _]]; reflexivity);
       unfold scalar_entries in Hx; destruct n as [m|];
       try (destruct (1 <? m)%nat; [rewrite rep_keys in Hx; apply in_map_iff in Hx as [i [<- _]]; reflexivity|]);
@@ -227,11 +227,11 @@ Proof.
   - rewrite lookup_CP. reflexivity.
   - rewrite lookup_obj by reflexivity. unfold consistent, okn, col_ok in *.
     destruct k as [|m]; [|contradiction].
-    destruct (objective_of j) as [[z| | |]|s|l]; try contradiction; cbn [obj_entries obj_cell];
+    destruct (objective_of j) as [[z| | |]|s|l|]; try contradiction; cbn [obj_entries obj_cell];
       destruct Hn as [->| ->]; reflexivity.
   - rewrite lookup_obj by reflexivity. unfold consistent, okn, col_ok, kind_wf in *.
     destruct k as [|m]; [contradiction|]. subst n.
-    destruct (objective_of j) as [[z| | |]|s|l]; try contradiction; cbn [obj_entries obji_cell obj_cell scalar_entries].
+    destruct (objective_of j) as [[z| | |]|s|l|]; try contradiction; cbn [obj_entries obji_cell obj_cell scalar_entries].
     + destruct (1 <? m)%nat eqn:E; [|apply Nat.ltb_ge in E; lia]. rewrite rep_lookup. cbn [Nat.leb andb].
       destruct (i <? 0 + m)%nat eqn:E2; [reflexivity|]. apply Nat.ltb_ge in E2. lia.
     + rewrite tuple_entries_lookup. cbn [Nat.leb]. rewrite Nat.sub_0_r.
